@@ -1,4 +1,6 @@
 import PfVerif.Proofs.C14Up
+import PfVerif.Proofs.C14Sum
+import PfVerif.Proofs.C14Riv
 /-! # C14 — along-network operators equal their flow-path definitions
 
 Every theorem quantifies over all networks `ds`, all downstream-first orders `seq` (`Topo`, the
@@ -35,6 +37,52 @@ theorem upstream_sum_nodata_free (ds : Array Nat) (data : Array Int) (nd : Int)
   congr 2
   rw [List.filter_eq_self]
   intro i _; simp [hfree]
+
+/-- **upstream sum on its full domain** (fields with missing values included) — exactly what the
+loop computes: `0`/`nodata` (nodata iff the cell is *flagged*: it has a downstream cell and one of
+the two is empty) plus the values of the inflow cells holding a value, provided the cell itself holds
+one; for a flagged cell only the inflow cells with a LARGER index count, because the overwrite with
+nodata happens at step `j` of the index-ordered loop (the order dependence observed on the code). -/
+theorem upstream_sum_exact (ds : Array Nat) (data : Array Int) (nd : Int) (j : Nat) (hj : j < ds.size) :
+    (upstreamSumModel ds data nd)[j]! = upstreamSumExact ds data nd j := by
+  obtain ⟨h1, h2⟩ := upstreamSum_inv_full ds data nd j hj ds.size
+  have he : upstreamSumExact ds data nd j =
+      (if upsumFlagged ds data nd j then nd else 0) + partialUp2 ds data nd j ds.size := rfl
+  rw [he]
+  unfold upstreamSumModel
+  by_cases hf : upsumFlagged ds data nd j = true
+  · rw [h1 hf hj, if_pos hf]
+  · have hf' : upsumFlagged ds data nd j = false := by simpa using hf
+    rw [h2 hf', if_neg hf]; omega
+
+/-- where the result is well defined: a cell that is not flagged gets the sum of its inflow cells
+that hold a value (0 if it is empty itself); a flagged cell none of whose later-indexed inflow cells
+holds a value gets nodata. Every other cell gets `nodata + (part of the inflow values)`. -/
+theorem upstream_sum_welldefined (ds : Array Nat) (data : Array Int) (nd : Int) (j : Nat) (hj : j < ds.size) :
+    (upsumFlagged ds data nd j = false →
+      (upstreamSumModel ds data nd)[j]! =
+        if data[j]! = nd then 0 else upstreamSumSpec ds data nd j) ∧
+    (upsumFlagged ds data nd j = true →
+      (∀ i ∈ inflows ds j, j < i → data[i]! = nd ∨ data[j]! = nd) →
+      (upstreamSumModel ds data nd)[j]! = nd) := by
+  rw [upstream_sum_exact ds data nd j hj]
+  unfold upstreamSumExact upstreamSumSpec
+  constructor
+  · intro hf
+    by_cases hd : data[j]! = nd
+    · have he : ((inflows ds j).filter fun _ => false) = [] := List.filter_eq_nil_iff.2 (by simp)
+      simp [hf, hd, he]
+    · have hb : (data[j]! != nd) = true := by simpa using hd
+      simp [hf, hd, hb]
+  · intro hf hall
+    have : ((inflows ds j).filter fun i => data[i]! != nd && data[j]! != nd &&
+        (!upsumFlagged ds data nd j || decide (j < i))) = [] := by
+      rw [List.filter_eq_nil_iff]
+      intro i hi
+      by_cases hji : j < i
+      · rcases hall i hi hji with h | h <;> simp [h]
+      · simp [hf, hji]
+    rw [this]; simp [hf]
 
 /-! ## nodata filling -/
 
@@ -129,12 +177,26 @@ theorem fill_down_max_frontier (ds : Array Nat) (seq : List Nat) (data : Array I
     (fun x a => by have : mergeHow 0 x a = max x a := by simp [mergeHow]
                    rw [this]; omega) ds seq data nd htopo hb
 
-/- NOT PROVED (full statement kept): the frontier form for `sum`,
-   `data[j] = nd → fillOpt … 2 j = (if no k feeds j then none else some (Σ_{k ∈ seq, data k ≠ nd ∧ Feeds k j} data k))`
-   (needs the partition of the frontier of `j` over its direct upstream cells plus uniqueness of the
-   flow path, as for C04's accumulation). What is proved for `sum` is the recursive form
-   `fill_down_def` + the unconditional `merge_sum_spec`; the frontier sum is what the driver's oracle
-   `fillDownSpec` computes and compares in every case. -/
+/-- a cell ends up holding a value iff it held one or some cell holding a value feeds it (all merge
+rules) -/
+theorem fill_down_filled_iff (ds : Array Nat) (seq : List Nat) (data : Array Int) (nd : Int) (how : Nat)
+    (htopo : Topo ds seq) (hb : ∀ i ∈ seq, i < data.size) (j : Nat) (hj : j ∈ seq) :
+    fillOpt ds seq data nd how j ≠ none ↔
+      data[j]! ≠ nd ∨ ∃ k ∈ seq, data[k]! ≠ nd ∧ Feeds ds data nd k j :=
+  fillOpt_isSome_iff ds seq data nd how htopo hb j hj
+
+/-- **fill 'down', sum — nearest valid values upstream (frontier form).** The value of an empty cell
+`j` is the sum of the field over the cells `k` that hold a value and feed `j` (reach it through empty
+cells only), every such cell counted exactly once (`sumOver n P f = Σ_{k < n, P k} f k`); the cell
+stays empty iff there is no such cell. Proved by identifying the sum fill with C04's guarded
+accumulation sweep (field "value or 0", link open iff the downstream cell is empty). -/
+theorem fill_down_sum_frontier (ds : Array Nat) (seq : List Nat) (data : Array Int) (nd : Int)
+    (htopo : Topo ds seq) (hb : ∀ i ∈ seq, i < data.size) (j : Nat) (hj : j ∈ seq) (hd : data[j]! = nd) :
+    ((¬ ∃ k ∈ seq, data[k]! ≠ nd ∧ Feeds ds data nd k j) → fillOpt ds seq data nd 2 j = none) ∧
+    ((∃ k ∈ seq, data[k]! ≠ nd ∧ Feeds ds data nd k j) →
+      fillOpt ds seq data nd 2 j =
+        some (sumOver data.size (fun k => k ∈ seq ∧ data[k]! ≠ nd ∧ Feeds ds data nd k j) (fun k => data[k]!))) :=
+  fillDown_sum_frontier ds seq data nd htopo hb j hj hd
 
 /-! ## the window of `moving_average` / `moving_median` -/
 
@@ -457,6 +519,61 @@ theorem flood_eq_spec (ds : Array Nat) (seq : List Nat) (P : FpParams)
       · exact absurd (by simpa using hk.1 h) hc
       · exact h
 
+/-! ## smooth_rivlen (not part of the property text; an along-network operator modelled here)
+
+`smoothRivlenModel … = (rivlen_out, flag)`; exact rationals. `inRivWindow ds usMain n idx0 k`: `k` is
+`idx0` or one of the ≤ n cells up the main stem / downstream of it (`n = max_window // 2`). -/
+
+/-- cells without a value are never written -/
+theorem smooth_rivlen_nodata (ds usMain : Array Nat) (rivlen : Array Rat) (minLen : Rat) (maxWindow : Nat)
+    (nd : Rat) (j : Nat) (h : rivlen[j]! = nd) :
+    (smoothRivlenModel ds usMain rivlen minLen maxWindow nd).1[j]! = nd := by
+  unfold smoothRivlenModel
+  rw [smoothFold_frame ds usMain nd minLen (maxWindow / 2) j _ (rivlen, true) (Or.inl h)]
+  exact h
+
+/-- a cell that lies in the window of no cell is unchanged -/
+theorem smooth_rivlen_frame (ds usMain : Array Nat) (rivlen : Array Rat) (minLen : Rat) (maxWindow : Nat)
+    (nd : Rat) (j : Nat) (h : ∀ idx0, idx0 < rivlen.size → ¬ inRivWindow ds usMain (maxWindow / 2) idx0 j) :
+    (smoothRivlenModel ds usMain rivlen minLen maxWindow nd).1[j]! = rivlen[j]! := by
+  unfold smoothRivlenModel
+  exact smoothFold_frame ds usMain nd minLen (maxWindow / 2) j _ (rivlen, true)
+    (Or.inr (fun i hi => h i (List.mem_range.1 hi)))
+
+/-- a cell whose length is already ≥ `min_rivlen` and that lies in no OTHER cell's window is unchanged -/
+theorem smooth_rivlen_long_cell (ds usMain : Array Nat) (rivlen : Array Rat) (minLen : Rat) (maxWindow : Nat)
+    (nd : Rat) (j : Nat) (hge : ¬ (rivlen[j]! < minLen))
+    (h : ∀ idx0, idx0 < rivlen.size → idx0 ≠ j → ¬ inRivWindow ds usMain (maxWindow / 2) idx0 j) :
+    (smoothRivlenModel ds usMain rivlen minLen maxWindow nd).1[j]! = rivlen[j]! := by
+  unfold smoothRivlenModel
+  exact smoothFold_frame_ge ds usMain nd minLen (maxWindow / 2) j _ (rivlen, true) hge
+    (fun i hi => h i (List.mem_range.1 hi))
+
+/-- `max_window < 4`: the loop `for i in range(1, n)` is empty and nothing is smoothed -/
+theorem smooth_rivlen_small_window (ds usMain : Array Nat) (rivlen : Array Rat) (minLen : Rat)
+    (maxWindow : Nat) (nd : Rat) (hw : maxWindow < 4) :
+    smoothRivlenModel ds usMain rivlen minLen maxWindow nd = (rivlen, true) := by
+  unfold smoothRivlenModel
+  have hn : maxWindow / 2 ≤ 1 := by omega
+  generalize List.range rivlen.size = l
+  induction l with
+  | nil => rfl
+  | cons x l ih => rw [List.foldl_cons, smoothStep_small ds usMain nd minLen _ hn]; exact ih
+
+/-- **the total length is conserved** (exactly, in rationals): provided the windows `core._window(idx0,
+max_window//2)` are duplicate-free and in range (true on a loop-free network with a consistent
+main-upstream map; both are decidable and reported by the driver per case),
+`Σ_j rivlen_out[j] = Σ_j rivlen[j]`. -/
+theorem smooth_rivlen_total (ds usMain : Array Nat) (rivlen : Array Rat) (minLen : Rat) (maxWindow : Nat)
+    (nd : Rat)
+    (hnd : ∀ idx0 < rivlen.size, (window ds usMain none (maxWindow / 2) idx0).Nodup)
+    (hb : ∀ idx0 < rivlen.size, ∀ k ∈ window ds usMain none (maxWindow / 2) idx0, k < rivlen.size) :
+    totalLen (smoothRivlenModel ds usMain rivlen minLen maxWindow nd).1 = totalLen rivlen := by
+  unfold smoothRivlenModel
+  exact smoothFold_total ds usMain nd minLen (maxWindow / 2) _ (rivlen, true)
+    (fun i hi => ⟨fun i' => rivSlice_nodup ds usMain _ i' i (hnd i (List.mem_range.1 hi)),
+      fun k hk => hb i (List.mem_range.1 hi) k ((inRivWindow_iff ds usMain _ i k).1 hk)⟩)
+
 /-! ## non-vacuity: one concrete network meets every hypothesis and the conclusions are non-trivial
 
 network: 4 → 2 → 1 → 0 (pit), 3 → 1 (confluence at 1), cell 5 missing; main stem 0 ← 1 ← 2 ← 4 -/
@@ -481,6 +598,11 @@ example : (upstreamSumModel dsX #[1, 2, 3, 4, 5, 6] (-9999))[1]! = 3 + 4 := by
 -- with missing values the statement is restricted to the `fixed` cells: cell 1 holds 2, its downstream
 -- cell 0 is empty, and the model (as the code) returns nodata + 3 + 4 there
 example : upstreamSumModel dsX #[-9999, 2, 3, 4, 5, 6] (-9999) = #[0, -9992, 5, 0, 0, 0] := by decide
+example : upstreamSumExact dsX #[-9999, 2, 3, 4, 5, 6] (-9999) 1 = -9999 + 3 + 4 := by decide
+-- the order dependence: 0 → 1 → 3 (pit, empty), 2 → 1. Cell 1 is flagged; inflow 0 (index < 1) is
+-- added before the overwrite and lost, inflow 2 (index > 1) is added to nodata afterwards
+example : upstreamSumModel #[1, 3, 1, 3] #[5, 1, 2, -9999] (-9999) = #[0, -9997, 0, 0] := by decide
+example : upstreamSumExact #[1, 3, 1, 3] #[5, 1, 2, -9999] (-9999) 1 = -9999 + 2 := by decide
 -- nodata filling
 example : fillnodataUpstream dsX seqX #[-1, 7, -1, -1, -1, -1] (-1) = #[-1, 7, 7, 7, 7, -1] := by decide
 example : FirstValid dsX #[-1, 7, -1, -1, -1, -1] (-1) 4 7 := by
@@ -502,6 +624,10 @@ example : fillOpt #[0, 0, 0] [0, 1, 2] #[-1, 2, -3] (-1) 2 0 = some (-1) := by d
 -- cell 3 (value 4) feeds cell 0 through the empty cells 1, 0; the min at cell 0 is ≤ its value
 example : Feeds dsX #[-1, -1, -1, 4, 9, -1] (-1) 3 0 :=
   Feeds.next 1 (Feeds.step (by decide) (by decide)) (by decide) (by decide)
+-- the hypothesis of the second half of `fill_down_sum_frontier` at cell 0 (cell 3 feeds it)
+example : ∃ k ∈ seqX, #[-1, -1, -1, 4, 9, -1][k]! ≠ (-1 : Int) ∧ Feeds dsX #[-1, -1, -1, 4, 9, -1] (-1) k 0 :=
+  ⟨3, by decide, by decide, Feeds.next 1 (Feeds.step (by decide) (by decide)) (by decide) (by decide)⟩
+example : fillOpt dsX seqX #[-1, -1, -1, 4, 9, -1] (-1) 2 0 = some (4 + 9) := by decide +kernel
 example : ∃ r, fillOpt dsX seqX #[-1, -1, -1, 4, 9, -1] (-1) 1 0 = some r ∧ r ≤ 4 :=
   (fill_down_min_frontier dsX seqX #[-1, -1, -1, 4, 9, -1] (-1) topoX boundX).1 3 (by decide) (by decide) 0
     (Feeds.next 1 (Feeds.step (by decide) (by decide)) (by decide) (by decide))
@@ -538,5 +664,16 @@ example : floodplainsModel dsX seqX PX = #[1, 1, 1, 0, 0, -1] := by decide +kern
 example : (floodplainsModel dsX seqX PX)[2]! = 1 :=
   (floodplain_def dsX seqX PX topoX boundX 2 (by decide)).2.2
     (Or.inr ⟨by decide, by decide +kernel, 1, walkFirst_sound dsX _ 7 1 1 (by decide), by decide⟩)
+
+-- smooth_rivlen on the example network: rivlen [6,1,5,-,2,-], min_rivlen 3, max_window 6 evaluates
+-- (`#eval`) to [4, 10/3, 10/3, -, 10/3, -]: cell 1 is averaged with 0 and 2 (→ 4), then cell 4 with
+-- 2 and 1 (→ 10/3); the total 14 is conserved, the empty cells 3 and 5 are untouched
+example : totalLen (smoothRivlenModel dsX usX #[6, 1, 5, -9999, 2, -9999] 3 6 (-9999)).1 =
+    totalLen #[6, 1, 5, -9999, 2, -9999] :=
+  smooth_rivlen_total dsX usX _ 3 6 (-9999) (by decide) (by decide)
+example : (smoothRivlenModel dsX usX #[6, 1, 5, -9999, 2, -9999] 3 6 (-9999)).1[3]! = -9999 :=
+  smooth_rivlen_nodata dsX usX _ 3 6 (-9999) 3 (by decide +kernel)
+example : smoothRivlenModel dsX usX #[6, 1, 5, -9999, 2, -9999] 3 3 (-9999) = (#[6, 1, 5, -9999, 2, -9999], true) :=
+  smooth_rivlen_small_window dsX usX _ 3 3 (-9999) (by decide)
 
 end Pf.C14
